@@ -880,8 +880,9 @@ impl EdnsData {
     }
 
     pub fn get_cookie(&self) -> Option<(&[u8], Option<&[u8]>)> {
+        /* A COOKIE option shorter than a client cookie is malformed: treat it as absent. */
         self.get_opt(&EDNS_COOKIE)
-            .map(|opt| (&opt.data[..8], opt.data.get(8..)))
+            .and_then(|opt| Some((opt.data.get(..8)?, opt.data.get(8..))))
     }
 
     pub fn set_cookie(&mut self, client: &[u8], server: &[u8]) {
@@ -897,11 +898,12 @@ impl EdnsData {
     }
 
     pub fn get_extended_dns_error(&self) -> Option<(EdeCode, String)> {
-        self.get_opt(&EDNS_EDE).map(|opt| {
-            (
-                EdeCode(u16::from_be_bytes([opt.data[0], opt.data[1]])),
-                String::from_utf8_lossy(&opt.data[2..]).into_owned(),
-            )
+        /* An EDE option needs at least the two octet info-code: a shorter one is treated as absent. */
+        self.get_opt(&EDNS_EDE).and_then(|opt| {
+            Some((
+                EdeCode(u16::from_be_bytes([*opt.data.first()?, *opt.data.get(1)?])),
+                String::from_utf8_lossy(opt.data.get(2..)?).into_owned(),
+            ))
         })
     }
 
